@@ -190,7 +190,9 @@ def run(ctx):
         expv = (mpf(xi.numerator) / mpf(xi.denominator)) ** (mpf(om.denominator) / mpf(om.numerator))
         got = mpf(b_.numerator) / mpf(b_.denominator) / (mpf(a_.numerator) / mpf(a_.denominator))
         err = abs(got / expv - 1)
-        tolr = mpf(10) ** -26 * (1 + 1 / mpf(float(om)))
+        # (the harness's double-double exp/ln are good to ~1e-27 relative per operation; ln(xi)/omega amplifies that by |ln xi|/omega. A LOST low
+        # part shows at ~1e-17: eight orders of magnitude above this tolerance)
+        tolr = mpf(10) ** -25 * (1 + (1 + abs(mp.log(mpf(xi.numerator) / mpf(xi.denominator)))) / mpf(float(om)))
         ctx.extra["worst_dd_low_part_error"] = max(ctx.extra.get("worst_dd_low_part_error", 0.0), float(err))
         if err > tolr:
             ctx.violation(f"double-double point, xi = {hi[slot]!r} + {lo[slot]!r}: the ratio of the Feynman parameters of the edges removed before/after this draw is "
